@@ -168,3 +168,19 @@ claim(
     'fragment is an ANALYSIS-ERROR.',
     'decision-table extraction by finite-domain evaluation of the AST + attribute-access census over mypy types',
 )
+
+claim(
+    'C11',
+    'Decided: (R1) the decision tables of match_tagname/get_tag, match_attribute_name and get_attribute_by_name over '
+    '(XML vs HTML) x (lower/upper/mixed spelling on the selector side) x (lower/upper/mixed spelling on the document '
+    'side) x prefix forms equal the case rules of the property; (R2) the attribute flag chain gives IGNORECASE exactly '
+    'for the i flag or an unflagged type attribute (any spelling of "type"), DOTALL always, and a case-sensitive twin '
+    'exactly for an unflagged type attribute, which the matcher selects iff the document is XML; (R3) an HTML-only '
+    'selector list is evaluated iff self.is_html (reachability under both assumptions), and each of the 16 '
+    'pseudo-classes the documentation marks HTML-only is compiled with FLG_HTML or sets the marker; (R4) util.lower '
+    'maps exactly A-Z (evaluated on all ASCII code points and on non-ASCII letters). The functions touch their '
+    'operands only through ==, membership, util.lower and None tests, so the spelling classes are exhaustive. Not '
+    'decided: document-type detection from a tree.',
+    '',
+    'decision-table extraction by finite-domain evaluation of the AST + reachability on the path walker',
+)
